@@ -21,6 +21,15 @@
    with the watchdog_exempt mark ([HStartExempt]), CoordinationSystem.kill_operation
    ([HKill]), ResourceLock.pop_next_waiter ([XPopWaiter]).
 
+   The remaining public operations of the controller / the system that release or end
+   operations, or register resources, are in the alphabet as well:
+   controller.release_all_resources on an operation that STAYS ALIVE ([XReleaseAll]: the
+   bulk release behind complete / abort is itself public), CoordinationSystem.shutdown
+   ([XShutdown]: every active operation aborted, then clear_all),
+   CoordinationSystem.run_maintenance ([XMaintain]: check_and_boost, then the watchdog, as
+   ONE call) and the registration of a further resource while the history runs
+   ([XRegister]).
+
    READING.  W is "currently blocked on r" iff W's latest acquisition attempt on
    r returned BLOCKED, W has not obtained r since, W is still active and r has
    been owned ever since (possibly by a new owner after a preemption).  The
@@ -233,7 +242,14 @@ Inductive xop :=
    they decide what a later Watchdog.execute does (time-outs), never the wait-for relation *)
 | XTick (d : Z)                   (* d seconds pass *)
 | XAdvance (o : Z)                (* ctx = active_operations.get(o); controller.advance(ctx) (default checkpoints) *)
-| XPopWaiter (r : Z).             (* controller.resources[r].pop_next_waiter() *)
+| XPopWaiter (r : Z)              (* controller.resources[r].pop_next_waiter() *)
+(* the remaining public calls that RELEASE or END: they do change the wait-for relation *)
+| XReleaseAll (o : Z)             (* ctx = active_operations.get(o); controller.release_all_resources(ctx) -
+                                     the operation stays alive *)
+| XShutdown                       (* system.shutdown(): abort every active operation, then priority_manager.clear_all *)
+| XMaintain                       (* system.run_maintenance(): check_and_boost, then watchdog.execute *)
+(* a resource registered while the history runs (an id that is not registered yet) *)
+| XRegister (r : Z) (b : bool).   (* system.register_resource(r, allow_preemption=b) *)
 
 Definition xstate := (gstate * boosts)%type.
 
@@ -272,6 +288,27 @@ Definition xstep (fl : flags) (w : wcfg) (xs : xstate) (a : xop) : xstate * list
   | XTick d => xfop fl w xs (FTick d)
   | XAdvance o => xfop fl w xs (FAdvance o)
   | XPopWaiter r => xfop fl w xs (FPopWaiter r)
+  | XReleaseAll o =>
+      if is_active s o then
+        let s' := release_all fl s o in (((s', still_blocked s' ws), bs), [0])
+      else (xs, [-1])
+  | XShutdown =>
+      let s1 := shutdown fl s in
+      let s' := clear_boosts s1 bs in
+      (((s', still_blocked s' ws), []), [0])
+  | XMaintain =>
+      (* [number of new boosts; (operation, original, boosted)*; (operation, reason)*] *)
+      match check_and_boost s bs with
+      | Some (s1, bs1, nb) =>
+          let '(gs', ret) := gstep fl w (s1, ws) HWatchdog in
+          ((gs', bs1), Z.of_nat (length nb) :: tri_flat nb ++ ret)
+      | None => (xs, [-7])
+      end
+  | XRegister r b =>
+      match get_lock s r with
+      | Some _ => (xs, [-1])      (* the driver registers an id once *)
+      | None => (((put_lock s r (mkLock None 0 0 b []), ws), bs), [0])
+      end
   end.
 
 Fixpoint xrun (fl : flags) (w : wcfg) (xs : xstate) (hs : list xop) : xstate :=
